@@ -63,6 +63,29 @@ def run(tier, seed):
                                 next(((i, str(a), str(b)) for i, (a, b) in enumerate(zip(got, exp)) if not close(a, b)), None))
                         R.guard("overlap-add-is-the-windowed-hop-shifted-sum", {"size": size, "hop": hop, "blocks": m, "wnd": None if wnd is None else [str(v) for v in wnd], "kind": wkind, "normalize": normalize}, case)
     # wrong sizes are refused
+    # scale: sizes above 256 (window given as list / callable, normalisation on and off), exact rationals
+    for size, hop in ((257, 64), (300, 300), (512, 128)):
+        for wkind in ("list", "callable", None):
+            for normalize in (False, True):
+                def big():
+                    wv = None if wkind is None else [F(1 + (i % 5), 2) for i in range(size)]
+                    w = None if wkind is None else (list(wv) if wkind == "list" else (lambda n: list(wv)))
+                    blks = [[F((3 * i + 7 * b) % 13 - 6) for i in range(size)] for b in range(3)]
+                    got = list(overlap_add.list(iter([list(b) for b in blks]), size=size, hop=hop, wnd=w, normalize=normalize))
+                    ww = wv if wv is not None else [F(1)] * size
+                    if normalize:
+                        if wv is None:
+                            g = F(1, -(-size // hop))
+                            ww = [g] * size
+                        else:
+                            gain = max(sum(abs(ww[i]) for i in range(s, size, hop)) for s in range(hop))
+                            ww = [v / gain for v in ww] if gain else ww
+                    n_out = 3 * hop + size - hop
+                    exp = [sum(ww[n - k * hop] * blks[k][n - k * hop] for k in range(3) if 0 <= n - k * hop < size) for n in range(n_out)]
+                    ok = len(got) == n_out and all(abs(float(u) - float(v)) < 1e-9 for u, v in zip(got, exp))
+                    return ok, "overlap_add.list with size %d, hop %d, window %s, normalize %r: %d samples (expected %d)%s" % (
+                        size, hop, wkind, normalize, len(got), n_out, "" if len(got) != n_out else ", values differ")
+                R.guard("overlap-add-is-the-windowed-hop-shifted-sum", {"size": size, "hop": hop, "kind": wkind, "normalize": normalize, "scale": True}, big)
     R.guard("wrong-block-size-refused", {}, lambda: (_raises(lambda: list(overlap_add.list(iter([[1, 2, 3]]), size=2, hop=1, normalize=False)), "ValueError"), "block longer than size must raise ValueError"))
     R.guard("wrong-window-size-refused", {}, lambda: (_raises(lambda: list(overlap_add.list(iter([[1, 2]]), size=2, hop=1, wnd=[1, 2, 3], normalize=False)), "ValueError"), "window of the wrong size must raise ValueError"))
     # a window object handed in by the caller is not modified and can be reused (callable returning the same list)
